@@ -24,15 +24,18 @@ RULE = ('random files: 1-3 blocks with data arrays / tags / multi tags and a sou
         'and long names), properties with names shared between linked sections, metadata links from blocks / arrays / tags / multi tags / sources, '
         'source attachments, section links. After a dump ~30 queries: findSections from the file and from sections, findSources from blocks and '
         'sources with every filter kind (none, AcceptAll, id, id set, name, type, name-and-type lambda) and depth 0 .. height+1, SIZE_MAX and the '
-        'default; findRelated; referring* of every kind with and without block; parentSource; inheritedProperties. Then random deletions / unlinks, '
+        'default; findRelated; referring* of every kind with and without block; parentSource (also with sources NAMED like the id of another source, '
+        'placed where the search meets them first); inheritedProperties. Then random deletions / unlinks, '
         'dump, queries; close + reopen (rw / ro), dump, queries. ~17 % of the queries are malformed (null handles, unknown ids and names, empty and '
-        'duplicated id sets, null block). Every answer is judged against the brute-force reading of the dump (REL) and against the queue model (DIFF). '
+        'duplicated id sets, null block). Every answer is judged against the brute-force reading of the dump — positions from the paths, links from the '
+        'operations the library accepted, not from its getters — (REL) and against the queue model (DIFF; as sets where the property promises no order). '
         'non-trivial = a case with a non-empty answer of a depth-cut single-start search and a back-reference hit; distinct = distinct op text.')
 TRUSTED = ['harness dump (paths, ids, names, types, meta=, srcs=, link= of every entity) as the description of the forest',
            'lean/NixModel/Search.lean: hand transcription of the queue loops and filters; the forest is taken as the getters expose it, HDF5 groups and links are not modelled',
            'TypeFilter is exercised with patterns free of regex metacharacters only (boost::regex is not modelled)']
-ASSUMPTIONS = ['entity ids pairwise distinct (C12)', 'no source is named like the id of another source of its block (names that are ids: finding K1)',
-               'section handles are obtained from their parent (createSection / getSection), so parent() is the real parent chain']
+ASSUMPTIONS = ['entity ids pairwise distinct (C12)',
+               'section handles are obtained from their parent (createSection / getSection), so parent() is the real parent chain',
+               'links (metadata, section link, attached sources) are those set by the accepted operations of the history; deleting a target removes the links to it (C04)']
 
 NAMES = ['a', 'b', 'c', 'A', 'a ', 'ü €', 'sections', 'aaaaaaaa-bbbb-cccc-dddd-eeeeeeeeeeee', 'n' * 60, '..']
 ETYPES = ['t', 'u', 'ü', 'nix.type']
@@ -84,9 +87,25 @@ def forest(w, rng, kind, parent, nroots):
         root = mk_typed(w, rng, kind, parent)
         if root is None or not root.alive:
             continue
-        shape = rng.choice(['chain', 'bush', 'lopsided', 'any', 'any', 'any', 'leaf'])
+        shape = rng.choice(['chain', 'bush', 'lopsided', 'lopsided', 'any', 'any', 'any', 'leaf'])
         if shape != 'leaf':
-            grow(w, rng, kind, root, 2, rng.randint(2, 5), shape, [rng.randint(4, 14)])
+            grow(w, rng, kind, root, 2, rng.choice([2, 3, 4, 5, 5, 5]), shape, [rng.randint(4, 14)])
+
+
+def alias_sources(w, rng):
+    """sources NAMED like the id of another source of the same block, placed where the breadth-first search meets them
+    before the real parent (under the root of the victim's tree, or under an earlier root)"""
+    for b in w.alive('B'):
+        roots = w.alive('O', parent=b.slot)
+        deep = [e for e in w.alive('O', block=b.slot) if e.parent != b.slot and parent_of(w, e) is not None and parent_of(w, e).parent != b.slot]
+        if not deep or rng.random() < 0.6:
+            continue
+        v = rng.choice(deep)
+        root = ancestors(w, v)[-1]
+        earlier = roots[:roots.index(root)] if root in roots else []
+        host = rng.choice(earlier) if earlier and rng.random() < 0.5 else root
+        slot = w.fresh()
+        w.emit('sr_mkalias %s %s %s %s' % (slot, host.slot, v.slot, S('t')))
 
 
 def subtree_height(w, e):
@@ -193,6 +212,10 @@ def queries(w, rng, n):
     inner_srcs = [s_ for s_ in srcs if w.alive('O', parent=s_.slot)] or srcs
     deep_secs = [s_ for s_ in secs if subtree_height(w, s_) >= 2] or inner_secs
     deep_srcs = [s_ for s_ in srcs if subtree_height(w, s_) >= 2] or inner_srcs
+    very_deep = [s_ for s_ in secs if subtree_height(w, s_) >= 4]
+    if very_deep: deep_secs = deep_secs + very_deep * 2
+    very_deep = [s_ for s_ in srcs if subtree_height(w, s_) >= 4]
+    if very_deep: deep_srcs = deep_srcs + very_deep * 2
     file_height = 1 + max([subtree_height(w, s_) for s_ in w.alive('S', parent='$F')] or [-1])
     for _ in range(n):
         bad = rng.random() < 0.17
@@ -291,6 +314,7 @@ def history(rng, tier):
         forest(w, rng, 'O', b, rng.choice([0, 1, 1, 2, 3]))
     forest(w, rng, 'S', None, rng.choice([1, 1, 2, 3, 4]))
     link_things(w, rng)
+    alias_sources(w, rng)
     nq = 36 if tier == 'quick' else 48
     w.emit('dump')
     queries(w, rng, nq // 2)
@@ -329,9 +353,9 @@ LEVEL_TEXT = ('Lean 4 theorems about a statement-by-statement model of the searc
               'nodes at depth 1..d resp. 0..d; File::findSections / Block::findSources are the per-root concatenation and a permutation of the brute-force '
               'level listing; depth >= height (the SIZE_MAX default) returns every descendant; results carry no id twice when ids are distinct; metadata / link '
               'resolution by id search is sound and complete; referring* equal the brute-force filter of all candidates (sources: as a multiset); parentSource '
-              'returns the unique source whose child has the id (uniqueness from id distinctness); inheritedProperties = own ++ unshadowed linked; findRelated = '
+              'returns the unique source whose child has the id (uniqueness from id distinctness; the version before fix S1 is refuted by a counter-witness); inheritedProperties = own ++ unshadowed linked; findRelated = '
               'nearest accepted generation below, else nearest accepted ancestor, else accepted siblings of the nearest ancestor that has any. The model is tied '
-              'to the library by differential queries on random forests, and every answer of the library is judged directly against a brute-force reading of the dump.')
+              'to the library by differential queries on random forests, and every answer of the library is judged directly against a brute-force reading of the dump (positions from the paths, links from the accepted operations of the history).')
 LEVEL_NOTE = ('Trusted: Lean kernel; the transcription of the C++ loops (validated by the differential run); the canonical dump as the description of the forest; '
               'HDF5 group iteration order as exposed by sections()/sources(); boost::regex in TypeFilter only for metacharacter-free patterns. Assumed: ids distinct '
-              '(C12); no source named like another source\'s id (K1).')
+              '(C12); section handles obtained through their parents.')
